@@ -155,10 +155,13 @@ def lake_build(targets):
 
 def run_translators():
     """regenerate every Gen/*.lean from the current /repo (tie T2-src)."""
-    r = subprocess.run([sys.executable, os.path.join(ROOT, 'tools', 'gen_dq.py'), REPO], capture_output=True, text=True)
-    if r.returncode != 0:
-        return False, r.stdout + r.stderr
-    return True, r.stdout
+    out = ''
+    for tool in ('gen_dq.py', 'gen_src.py'):
+        r = subprocess.run([sys.executable, os.path.join(ROOT, 'tools', tool), REPO], capture_output=True, text=True)
+        out += r.stdout + r.stderr
+        if r.returncode != 0:
+            return False, out
+    return True, out
 
 
 # ----------------------------------------------------------------------------- driver
